@@ -697,8 +697,12 @@ def _interface_scenario(ctx, spec):
         return raw
 
     def push(raw, delay=None):
-        gw.send_tunnelling_request(state["seq"], raw, delay)
-        state["seq"] += 1
+        # the sequence counter is taken at delivery time: frames due at the same instant can not overtake each other
+        if delay is None:
+            gw.send_tunnelling_request(state["seq"], raw)
+            state["seq"] += 1
+        else:
+            loop.call_later(delay, push, raw)
 
     def burst():
         for _ in range(spec["nburst"]):
